@@ -90,7 +90,7 @@ def make_judge(chk, stats):
             # toggling keeps the position (rounded down to the grid when switching on)
             pt = parent['rec']['T']
             if pt >= 0 and ok:
-                exp = pt if op == 'h0' else pt  # position truthful: stays (the next read continues from there)
+                exp = min(pt, fm.L)  # position truthful: stays (the next read continues from there); a half-rate read-through of an odd-length stream ends one past the total, which is the end of the stream
                 if r['T'] not in (exp, exp & ~1):
                     chk.violation(classify(fm, hist, r, 'toggle_moved_position'), f'{op} at tell {pt} moved the position to {r["T"]}', rep)
         if parent is not None and op[:2] == 'ps' and hs:
